@@ -206,6 +206,9 @@ func (r bres) err() error {
 // recovered by go-smtp and logged ("panic serving ...") exactly once
 var panicsRaised atomic.Int64
 
+// number of conversations of this process that did not end within their budget
+var hangsSeen atomic.Int64
+
 func (r bres) String() string {
 	switch r.kind {
 	case "se":
@@ -541,6 +544,9 @@ func parseCfg(s string) map[string]string {
 
 // conv  CFG  BACKEND  INPUT   ->  events  drecs  WAC=n
 func probeConv(f []string) string {
+	if hangsSeen.Load() >= 12 {
+		return "HANG-SKIPPED\t\tWAC=0"
+	}
 	cfg := parseCfg(f[1])
 	log := &evlog{}
 	be := &backend{log: log, q: map[string][]string{}, dataStarted: make(chan struct{}, 64)}
@@ -645,17 +651,29 @@ func probeConv(f []string) string {
 		srv.VHandleConn(netc)
 	}()
 	hang := false
+	// a hang is an observation (deadlock); after a few of them in one run the budget per case shrinks so
+	// that a systematically deadlocking build does not stall the whole check
+	budget := 10 * time.Second
+	if hangsSeen.Load() >= 3 {
+		budget = 400 * time.Millisecond
+	}
 	select {
 	case <-done:
-	case <-time.After(10 * time.Second):
+	case <-time.After(budget):
 		hang = true
 	}
 	wd := make(chan struct{})
 	go func() { be.wg.Wait(); close(wd) }()
 	select {
 	case <-wd:
-	case <-time.After(5 * time.Second):
+	case <-time.After(budget / 2):
 		hang = true
+	}
+	if hang {
+		hangsSeen.Add(1)
+		// unblock whatever is still waiting on the connection
+		conn.end("eof")
+		conn.Close()
 	}
 	smtp.VerifPoint = nil
 	// a chunked delivery's panic is logged by its own goroutine after the callback has returned
